@@ -36,6 +36,9 @@ PRIORS = {
     # a store with a past: an overwritten key, a deleted key, a falsy value (start from non-initial states)
     'churned': [('set', 'k1', 'x'), ('set', 'k2', 'old2'), ('set', 'k4', 'gone'), ('set', 'k1', 'old1'), ('del', 'k4'),
                 ('set', 'k5', None)],
+    # keys that dir_archive cannot read back from the directory name alone (it keeps the key itself in a second file
+    # of the entry): an int, and a string with a dash
+    'oddkeys': [('set', 'k1', 'old1'), ('set', 7, 'old7'), ('set', 'a-b', 'olddash')],
 }
 
 
@@ -65,7 +68,7 @@ def operations(tier, backend=None):
     ops = _operations(tier)
     if backend == 'file-json':
         # (a JSON object has string keys only: a json *file* archive cannot hold the int key, whatever happens)
-        ops = [o for o in ops if o[0] != 'set-intkey']
+        ops = [o for o in ops if 'intkey' not in o[0] and 'oddkeys' not in o[0]]
     return ops
 
 
@@ -92,6 +95,10 @@ def _operations(tier):
         ('update-empty', ('update', ())),
         ('copy', ('copy',)),
         ('set-intkey', ('set', 7, 'seven')),        # (a non-string key: dir_archive keeps the key itself in a second file)
+        ('overwrite-intkey', ('set', 7, 'new7')),
+        ('overwrite-dashkey', ('set', 'a-b', 'newdash')),
+        ('update-oddkeys', ('update', ((7, 'new7'), ('a-b', 'newdash'), ('k3', 'new3')))),
+        ('del-intkey', ('del', 7)),
     ]
     if tier == 'thorough':
         ops += [('set-big', ('set', 'k3', BIG)), ('overwrite-big', ('set', 'k1', BIG))]
@@ -147,6 +154,10 @@ def applicable(P, op):
     if k == 'popkeys' and len(op) == 2 and any(q not in P for q in op[1]):
         return False
     if k == 'set' and op[1] == 'k1' and 'k1' not in P:
+        return False
+    if k == 'set' and op[1] in (7, 'a-b') and (op[2] in ('new7', 'newdash')) != (op[1] in P):
+        return False        # overwrite-* need the key to exist, set-intkey needs it not to
+    if k == 'update' and 7 in dict(op[1]) and 7 not in P:
         return False
     if k == 'setdefault' and op[1] == 'k1' and 'k1' not in P:
         return False
@@ -319,6 +330,8 @@ def tasks_for(tier):
                 if not applicable(P, op):
                     continue
                 if tier == 'quick' and pn == 'one' and opname in ('popitem', 'setdefault-present', 'pop', 'popkeys-default', 'sync', 'update-empty'):
+                    continue
+                if pn == 'oddkeys' and (b == 'file-json' or (tier == 'quick' and not (opname.endswith('intkey') or opname.endswith('dashkey') or opname in ('update-oddkeys', 'clear', 'dump')))):
                     continue
                 if tier == 'quick' and pn == 'churned' and opname in ('popitem', 'setdefault', 'setdefault-present', 'pop', 'open-cached', 'update-empty', 'set-none'):
                     continue
